@@ -85,4 +85,189 @@ theorem as_rate_expr_spec_eyring (ctx : Ctx ℝ) (dH dS T : ℝ) (uks : Option (
     rw [neg_div, neg_div, div_div]
     ring
 
+/-! ## the operator algebra -/
+
+/-- `operators_are_homomorphic`.  For operands `l`, `r` (numbers, strings, expressions; of the shape the operators
+themselves construct) with values `a`, `b`: whatever tree an overloaded operator returns — the plain node OR one of its
+short-cut results (`x + 0`, `x + y*0`, `x - 0`, `x * 1`, `x / 1`, `-(-x)`), in direct or reflected form — evaluates to
+the arithmetic result, and has again that shape (so the statement composes over whole trees).
+Exclusions, both mirrored from the code and witnessed below: `*` and `/` with a `MassAction` operand go through
+`UnaryWrapper` (see `rdiv_massaction_defect_witness`), and `x - ""` returns `x`. -/
+theorem operators_are_homomorphic (ctx : Ctx ℝ) (l r e : Val ℝ) (a b : ℝ)
+    (hpl : plainOps l = true) (hpr : plainOps r = true) (ha : eval ctx l = .ok a) (hb : eval ctx r = .ok b) :
+    (pyAdd l r = .ok e → eval ctx e = .ok (a + b) ∧ plainOps e = true)
+    ∧ (pySub l r = .ok e → r ≠ .str "" → eval ctx e = .ok (a - b) ∧ plainOps e = true)
+    ∧ (pyMul l r = .ok e → l.isMassAction = false → r.isMassAction = false →
+        eval ctx e = .ok (a * b) ∧ plainOps e = true)
+    ∧ (pyDivOp l r = .ok e → l.isMassAction = false → r.isMassAction = false →
+        eval ctx e = pyDiv a b ∧ plainOps e = true)
+    ∧ (pyPow l r = .ok e → eval ctx e = PyNum.pow a b ∧ plainOps e = true)
+    ∧ (pyNeg l = .ok e → eval ctx e = .ok (-a) ∧ plainOps e = true) := by
+  refine ⟨?_, ?_, ?_, ?_, ?_, ?_⟩
+  · intro h
+    unfold pyAdd at h
+    split at h
+    · exact exprAdd_hom ctx l r e a b h hpl hpr ha hb
+    · split at h
+      · rw [add_comm]; exact exprAdd_hom ctx r l e b a h hpr hpl hb ha
+      · cases h
+  · intro h hne
+    unfold pySub at h
+    split at h
+    · exact exprSub_hom ctx l r e a b h hne hpl hpr ha hb
+    · split at h
+      · cases hn : exprNeg r with
+        | error err => rw [hn] at h; cases h
+        | ok n =>
+          rw [hn] at h
+          simp only [ok_bind] at h
+          obtain ⟨hnv, hnp⟩ := exprNeg_hom ctx r n b hn hpr hb
+          have := exprAdd_hom ctx n l e (-b) a h hnp hpl hnv ha
+          rw [sub_eq_add_neg, add_comm]; exact this
+      · cases h
+  · intro h hml hmr
+    unfold pyMul at h
+    split at h
+    · exact exprMul_hom ctx l r e a b h hml hmr hpl hpr ha hb
+    · split at h
+      · rw [mul_comm]; exact exprMul_hom ctx r l e b a h hmr hml hpr hpl hb ha
+      · cases h
+  · intro h hml hmr
+    unfold pyDivOp at h
+    split at h
+    · exact exprDiv_hom ctx l r e a b h hml hmr hpl hpr ha hb
+    · split at h
+      · exact exprRDiv_hom ctx r l e b a h hmr hpr hpl hb ha
+      · cases h
+  · intro h
+    exact pyPow_hom ctx l r e a b h hpl hpr ha hb
+  · intro h
+    unfold pyNeg at h
+    split at h
+    · exact exprNeg_hom ctx l e a h hpl ha
+    · cases h
+
+/-! ## named overrides -/
+
+/-- `override_replaces_exactly`.  For an instance of any class whose stored arguments evaluate to `g` and whose
+`unique_keys = u` (distinct, none of them set in `variables`), setting the variable named by the i-th key makes
+`all_args` return `g` with the i-th entry replaced by that value — that argument and no other.  Generic in the number
+type. -/
+theorem override_replaces_exactly {α : Type} [Add α] [Sub α] [Mul α] [Div α] [Neg α] [NatCast α] [PyNum α] (ctx : Ctx α) (k : Kind) (g : List α) (u : List String)
+    (i : Nat) (v : α) (hn : k.nargs = some (g.length : Int) ∨ k.nargs = none) (hu : u.Nodup) (hi : i < u.length)
+    (hlen : u.length ≤ g.length) (h : ∀ key ∈ u, ctx.vars key = none) :
+    allArgs (ctx.set u[i] v) k false g.length (g.map Except.ok) (some u) = .ok (g.set i v)
+    ∧ allArgs ctx k false g.length (g.map Except.ok) (some u) = .ok g :=
+  ⟨allArgs_override ctx k g u i v hn hu hi hlen h,
+   allArgs_no_override ctx k g (some u) hn (fun u' hu' => by cases hu'; exact h)⟩
+
+/-- the same at the level of a value: overriding the first argument of `Arrhenius([A, Ea_over_R], ('kA',))` -/
+theorem override_arrhenius (ctx : Ctx ℝ) (A E T v : ℝ) (key : String) (hk : ctx.vars key = none) (hkT : key ≠ "temperature")
+    (hT : ctx.vars "temperature" = some T) (hT0 : T ≠ 0) :
+    eval (ctx.set key v) (.node .arrhenius false [.num A, .num E] (some [key])) = .ok (v * Real.exp (-E / T))
+    ∧ eval ctx (.node .arrhenius false [.num A, .num E] (some [key])) = .ok (A * Real.exp (-E / T)) := by
+  constructor
+  · have haa := allArgs_override ctx .arrhenius [A, E] [key] 0 v (Or.inl rfl) (by simp) (by simp) (by simp)
+      (by simpa using hk)
+    simp only [List.length_cons, List.length_nil, List.map_cons, List.map_nil, List.getElem_cons_zero,
+      List.set_cons_zero] at haa
+    have hT' : (ctx.set key v).vars "temperature" = some T := by
+      simp only [Ctx.set, hT, ite_eq_right_iff]
+      intro h; exact absurd h.symm hkT
+    simp only [eval, evalList, call, List.map_cons, List.map_nil, noneArg_ok, List.length_cons, List.length_nil, haa,
+      ok_bind, get_some hT', pyDiv_real hT0, exp_real, pure_eq_ok]
+  · exact eval_arrhenius_node ctx A E T (some [key]) (fun u hu k' hk' => by cases hu; simp at hk'; subst hk'; exact hk) hT hT0
+
+/-! ## polynomials and piecewise definitions -/
+
+/-- `poly_spec`: an instance of `create_Poly(p)` / `create_Poly(p, reciprocal=True)` with coefficients `c₀, c₁, …`
+evaluates to `Σ cⱼ·xʲ` / `Σ cⱼ·x⁻ʲ` where `x = variables[p]` (for the reciprocal form `x ≠ 0`: Python raises
+`ZeroDivisionError` at 0). -/
+theorem poly_spec (ctx : Ctx ℝ) (p : String) (recip : Bool) (c : ℝ) (cs : List ℝ) (x : ℝ)
+    (hx : ctx.vars p = some x) (hx0 : recip = true → x ≠ 0) :
+    eval ctx (.node (.poly p recip false) false ((c :: cs).map Val.num) none)
+      = .ok ((((c :: cs).zipIdx 0).map fun q => q.1 * (if recip then x⁻¹ else x) ^ q.2).sum) := by
+  rw [eval_poly_node ctx p recip false (c :: cs) none x (by simp) hx, polyBody_spec recip x hx0 c cs]
+  rfl
+
+/-- the shifted variants (`ShiftedTPoly`, …): the first argument is the reference point -/
+theorem poly_shift_spec (ctx : Ctx ℝ) (p : String) (recip : Bool) (a0 c : ℝ) (cs : List ℝ) (x : ℝ)
+    (hx : ctx.vars p = some x) (hx0 : recip = true → x - a0 ≠ 0) :
+    eval ctx (.node (.poly p recip true) false ((a0 :: c :: cs).map Val.num) none)
+      = .ok ((((c :: cs).zipIdx 0).map fun q => q.1 * (if recip then (x - a0)⁻¹ else (x - a0)) ^ q.2).sum) := by
+  rw [eval_poly_node ctx p recip true (a0 :: c :: cs) none x (by simp) hx, polyBody_shift_spec recip x a0 hx0 c cs]
+  rfl
+
+/-- `piecewise_spec` (backends without `Piecewise`): when the selection over `lo₀, e₀, up₀ = lo₁, e₁, up₁, …` returns `v`,
+then `v = eᵢ` for the FIRST interval `[loᵢ, upᵢ]` that contains `x`; and it does return a value whenever some interval
+contains `x` (otherwise `ValueError`). -/
+theorem piecewise_spec (x : ℝ) (b : List ℝ) :
+    (∀ v, pwSelect x b = .ok v → ∃ i, pwHit x b i ∧ b[2 * i + 1]? = some v ∧ ∀ j < i, ¬ pwHit x b j)
+    ∧ (∀ i, pwHit x b i → (∃ e, b[2 * i + 1]? = some e) → ∃ v, pwSelect x b = .ok v) :=
+  ⟨pwSelect_spec x b, pwSelect_complete x b⟩
+
+/-! ## backends -/
+
+/-- `backend_naturality_partial`.  PROVED: for every map `φ` between two number structures that commutes with
+`+ − · / neg`, integer literals and `exp` (floats → magnitudes of unit-carrying quantities in consistent units; numbers →
+symbolic expressions and back by substitution; `math` ↔ `numpy` is the identity), every function translated from
+`arrhenius.py` / `eyring.py` commutes with `φ` — the value does not depend on the backend.
+NOT PROVED (full statement, kept for the record):
+  `∀ v ctx, eval (ctx.map φ) (v.map φ) = (eval ctx v).map φ` for every expression tree `v`, for `φ` that additionally
+  preserves `==`, `<=`, `**`, `log10`, `sin` — the structural induction over `Val` (21 classes) was not completed in the
+  time available; for trees the backend independence is covered by the correspondence/oracle only. -/
+theorem backend_naturality_partial {α β : Type} [Add α] [Sub α] [Mul α] [Div α] [Neg α] [NatCast α] [HasExp α]
+    [Add β] [Sub β] [Mul β] [Div β] [Neg β] [NatCast β] [HasExp β] (φ : α → β) (h : BackendHom φ) (x y z : α) :
+    φ (Gen.arrheniusEquation x y z) = Gen.arrheniusEquation (φ x) (φ y) (φ z)
+    ∧ φ (Gen.eyringEquation x y z) = Gen.eyringEquation (φ x) (φ y) (φ z)
+    ∧ φ (Gen.arrheniusFromRateconstA x y z) = Gen.arrheniusFromRateconstA (φ x) (φ y) (φ z)
+    ∧ φ (Gen.arrheniusEaOverR x) = Gen.arrheniusEaOverR (φ x)
+    ∧ φ (Gen.eyringKBhExpDSR x) = Gen.eyringKBhExpDSR (φ x)
+    ∧ φ (Gen.eyringDHOverR x) = Gen.eyringDHOverR (φ x) :=
+  gen_naturality h x y z
+
+/-! ## deviations of the code from the property, mirrored by the model (exact rational witnesses) -/
+
+/-- `2 / MassAction([3])` for `2 A → …` at `[A] = 2`: `UnaryWrapper.__rtruediv__` gives `MassAction([2/3])`, i.e.
+`(2/3)·2² = 8/3`, whereas the quotient of the values is `2/(3·2²) = 1/6`. -/
+theorem rdiv_massaction_defect_witness :
+    (do let e ← pyDivOp (constNode (2 : Rat)) (.node .massAction false [.num 3] none); eval wctx e) = .ok (8 / 3)
+    ∧ (do let m ← eval wctx (.node .massAction false [.num (3 : Rat)] none); pyDiv 2 m) = .ok (1 / 6) := by
+  constructor <;> decide +kernel
+
+/-- a `MassAction` among the coefficients of a `create_Poly` instance does not receive `reaction=`:
+`AttributeError`, although the same `MassAction` evaluates to 12 on its own. -/
+theorem reaction_not_forwarded_defect_witness :
+    eval wctx (.node (.poly "T" false false) false [.node .massAction false [.num (3 : Rat)] none, .num 1] none)
+      = .error .attributeError
+    ∧ eval wctx (.node .massAction false [.num (3 : Rat)] none) = .ok 12 := by
+  constructor <;> decide +kernel
+
+/-- `Eyring.fk('k')` (no stored arguments, one unique key): argument 1 (`dH_over_R`) silently takes the default of
+argument 2 (`conc0`), because `argument_defaults[1 - 3 + 1]` is Python's `[-1]`. -/
+theorem default_index_wraparound_witness :
+    argAt (α := Rat) wctx .eyring true 0 [] (some ["k"]) 1 = .ok 1 := by
+  decide +kernel
+
+/-! ## the hypotheses are satisfiable -/
+
+/-- a backend homomorphism exists (`math` ↔ `numpy`: the identity on ℝ) -/
+example : BackendHom (id : ℝ → ℝ) :=
+  ⟨fun _ _ => rfl, fun _ _ => rfl, fun _ _ => rfl, fun _ _ => rfl, fun _ => rfl, fun _ => rfl, fun _ => rfl⟩
+
+/-- a context as required by `as_rate_expr_spec_*`: `2 A + B → …` at 300 K -/
+example : ∃ (ctx : Ctx ℝ) (reac : List (String × ℤ)) (c : String → ℝ),
+    ctx.vars "temperature" = some 300 ∧ ctx.rxn = .some reac ∧ reac ≠ [] ∧
+    (∀ p ∈ reac, ctx.vars p.1 = some (c p.1) ∧ 0 < c p.1) :=
+  ⟨⟨fun k => if k = "temperature" then some 300 else if k = "A" then some 2 else if k = "B" then some 3 else none,
+      .some [("A", 2), ("B", 1)]⟩, [("A", 2), ("B", 1)], fun k => if k = "A" then 2 else 3, by simp, rfl, by simp,
+    by
+      intro p hp
+      simp only [List.mem_cons, List.not_mem_nil, or_false] at hp
+      rcases hp with rfl | rfl <;> simp⟩
+
+/-- operands of the shape required by `operators_are_homomorphic`, with a short-cut taken: `x + 0*y` is `x` -/
+example : pyAdd (symbolNode "x" : Val ℝ) (.node .mul false [symbolNode "y", constNode 0] none) = .ok (symbolNode "x") := by
+  simp [pyAdd, Val.isNode, symbolNode, exprAdd, conv, trivZero, constNode]
+
 end ChemModel.C16
